@@ -80,7 +80,7 @@ claimed = {
             'threads under the deterministic scheduler, all schedules with at most one (quick) / two (thorough) preemptions per program plus '
             'random schedules, on initial trees forcing every structural change; each execution\'s history goes through the verified '
             'validator, each sampled event trace through the extracted acceptor. This exposed D3 (collapse prepends to the surviving '
-            'sibling\'s prefix without its lock: lost read), fixed by 0f504ae.', '5 C03',
+            'sibling\'s prefix without its lock: lost read), fixed by 0f504ae. SNAPSHOT CHECK (added): on every explored execution of the C03 programs, at every moment at which no write guard is held by any thread the whole tree is dumped and must have exactly the shape the extracted sequential model builds from the same entries (C03s_snapshot_oracle: that shape is a function of the entries), and the entry set may change between consecutive snapshots only by in-flight operations that eventually succeed - the link "code = ArtModel step = commit shape" is thereby observed under concurrency, not only sequentially. Protocol rule R1 is now also demanded of scans (C03_protocol_scan_loads).', '5 C03',
             'Trusted: Coq 8.16.1 kernel, no axioms; sequential consistency; hooks at every lock-word / protected-field access; dsched; the '
             'search for a linearization is untrusted, its witness is checked by extracted lin_ok; schedules beyond the bound and programs '
             'beyond the listed ones are not covered.',
@@ -88,8 +88,14 @@ claimed = {
     'C04': ('proof', 'PARTIAL proof, decided end to end by exploration. Proved in Coq over the QSBR model (any history, any number of threads): '
             'a block retired while thread u is registered is not freed before u\'s next quiescent state or exit (C04_view_stable: this is '
             'what keeps a get/scan view readable), every retired block is pending or freed exactly once (C04_unlinked_freed_once), on top '
-            'of C05/C06. NOT a Coq theorem: that the tree code retires exactly the nodes it unlinks and never follows a pointer it has not '
-            're-validated. That is decided on the implementation for every explored schedule: any hooked access to a block after its free, '
+            'of C05/C06. C04b_*: the composition theorem in the heap-history framework - a thread followed through one non-quiescent period, every '
+            'node access listed with the origin of its pointer and NO version check assumed (so unvalidated accesses, abandoned attempts, iterator stack '
+            'entries and held views are covered): every touched node was in the tree at some moment of the period, hence (retire only what is unlinked, '
+            'published nodes freed only through QSBR, the QSBR guarantee in the abstract form of C05c_fine_safe) no access hits freed memory, a '
+            'reachable node is never freed, a touched node stays allocated until the thread quiesces; the writers\' side is proved for the commit shapes '
+            '(C04b_generated_satisfy_discipline) and each hypothesis has a machine-checked witness that it is needed. NOT a Coq theorem: that the C++ '
+            'accesses form such a trace over such a history (that the tree code retires exactly the nodes it unlinks and reads child pointers only out '
+            'of nodes it reached). That is decided on the implementation for every explored schedule: any hooked access to a block after its free, '
             'frees of reachable nodes, bytes behind every held value view re-read before the holder\'s quiescent state, and allocated == '
             'reachable after the drain.', '5 C04',
             'Trusted: as C03 and C05; leaf key/value bytes are plain memory (checked through the held-view re-read, not per access).',
@@ -142,9 +148,10 @@ claimed = {
             '(translation validation across builds): harness/seq_diff.cpp is built in all 16 configurations {AVX2,SSE4.1} x {stats, no '
             'stats} x {assertions, NDEBUG} x {PAUSE, EMPTY}; each runs the same C01/C02 histories on the three index classes and both key '
             'kinds (including scans followed by removals on the OLC index) and is diffed line by line against the extracted model; '
-            'assertion-enabled builds must exit 0. Memory use is compared with the node sizes of the respective build.', '5 C16',
-            'Trusted: Coq 8.16.1 kernel, no axioms; intrinsics by their lane-level meaning; g++ -O1; assertions on the concurrent paths are '
-            'exercised by the C03/C09/C14 explorations, not here; the read_lock_count theorem of DESIGN (C16_rlc) is not proved.',
+            'assertion-enabled builds must exit 0. Memory use is compared with the node sizes of the respective build. C16b_*: every UNODB_DETAIL_ASSERT of art.hpp / art_internal.hpp / art_internal_impl.hpp is regenerated into an inventory on every run (115; kernel-checked multiset equality with the hand classification: 61 modelled as boolean checks on the model state, 54 listed as unmodelled with reasons) and along every history in the C01g domain no modelled assertion fails (C16b_asserts_silent), with machine-checked witnesses that outside the domain they do fire. Assertions under CONCURRENCY: harness/olc_sched.cpp is built with the assertions enabled and explores the C03/C09 programs under the deterministic scheduler (all single-preemption schedules + random); this found defect D6 (torn key-prefix read asserted on in try_get/try_insert/try_remove), fixed by /repo commit 52d8748.', '5 C16',
+            'Trusted: Coq 8.16.1 kernel, no axioms; intrinsics by their lane-level meaning; g++ -O1; the assertion inventory is a text scan '
+            '(tools/gen.py asserts) and the mapping assertion -> boolean check is hand-written; assertions on the concurrent paths are decided by '
+            'exploration of the assertion build only; the read_lock_count theorem of DESIGN (C16_rlc) is not proved.',
             'Coq proof (variant equivalence, statistics are observers) + 16-configuration differential run against the extracted model'),
     'C05': ('proof', 'Coq theorem C05c_fine_safe: over EVERY interleaving of the atomic accesses inside register / resume, pause / exit, quiescent '
             'and retire calls by any number of threads (fine-grained model Qsbr/QsbrFine.v: loads, CASes with stale expected values, '
@@ -184,12 +191,19 @@ claimed = {
     'C02': ('proof', 'Coq theorems: the leaf order of a well-formed tree is the byte-wise key order; scan, scan_from and scan_range '
             'return exactly the entries of the requested interval in order, truncated at the visitor\'s halting call, for every tree, '
             'bound and direction (C02g_*: also for mixed-length prefix-free byte keys, the near bound prefix-free w.r.t. the stored keys); the pinned tree\'s seek is refuted by a machine-checked witness ({0,1,256}, scan_from 5). Tied by '
-            'differential runs on all classes / key kinds with bounds at every fall-off position.', '5 C02', ART_NOTE,
+            'differential runs on all classes / key kinds with bounds at every fall-off position. C02b_*: detail::compare (both overloads), both '
+            'basic_art_key::cmp overloads and the key constructors for key_view and uint64 keys are regenerated from the clang AST on every run '
+            '(byte-list memory model; the address of a span object is a separate parameter, so an address-dependent comparison cannot be bridged) and '
+            'proved equal to the lexicographic order of the key bytes / the numeric order of uint64 keys.', '5 C02', ART_NOTE,
             'Coq proof of iterator/seek/scan against interval lists + differential correspondence'),
     'C10': ('proof', 'Coq theorems: two well-formed trees with the same entries have the same shape (history independence), each node is '
             'in the smallest class fitting its fan-out, the incrementally maintained leaf/inode counts and memory use equal the '
             'functions of the tree after every history, counters are monotone, clear zeroes them (C10g_*: canonical shape and counts also for mixed-length byte keys). Tied by comparing every statistics '
-            'getter and the canonical dump after every operation.', '5 C10', ART_NOTE,
+            'getter and the canonical dump after every operation. C10h_*: the allocator view - for every history the multiset of live block sizes is '
+            'that of the tree, sums to the reported memory use, frees were live, clear and destruction return everything, failed operations are neutral; '
+            'tied by comparing, on every dump, the live block sizes and the sizes obtained / returned since the previous dump (allocator hooks) with the '
+            'extracted model. C10b_*: node capacities, minimum sizes, larger / smaller classes and the prefix capacity of the model equal the constants '
+            'regenerated from the source AST.', '5 C10', ART_NOTE,
             'Coq proof (canonical shape uniqueness, statistics = tree functions) + differential correspondence'),
     'C07': ('proof', 'Coq theorems over every event sequence the lock acceptor accepts (any number of threads, any length): at most one '
             'write guard and exactly when the write bit is set; a section whose check sees its version again overlapped no write-locked '
